@@ -87,10 +87,14 @@ func genOp(t *rapid.T) Op {
 }
 
 func genCase(t *rapid.T) Case {
-	c := Case{Stream: esl.Encode(gen.ESLStreamHuge(6).Draw(t, "stream"))}
+	lists := gen.ESLStreamHuge(6).Draw(t, "stream")
+	c := Case{}
 	if rapid.Bool().Draw(t, "withops") {
 		c.Ops = rapid.SliceOfN(rapid.Custom(genOp), 1, 12).Draw(t, "ops")
+	} else {
+		lists = gen.WithPEMText(t, lists)
 	}
+	c.Stream = esl.Encode(lists)
 	return c
 }
 
